@@ -33,8 +33,20 @@ func c13Files() [][]model.Row {
 			}
 			return r
 		}(),
+		// column names with blanks: "first name" next to "first" and "name" (a group-by list must not be identified by its
+		// names glued together with blanks, commas, ...)
+		{{"first name": "ann lee", "first": "ann", "name": "lee", "a": "1", "b": "2"}, {"first name": "bob", "first": "bob", "name": "", "a": "1"}, {"first": "ann", "name": "kim", "a": "2", "b": "2"}, {"first name": "ann", "first,name": "x", "a": "1", "b": "3"}},
 	}
 }
+
+// c13Hundred: one request with 100 queries (more than any per-request or per-core budget a server may have)
+var c13Hundred = func() []int {
+	var b []int
+	for i := 0; i < 100; i++ {
+		b = append(b, []int{0, 4, 1}[i%3])
+	}
+	return b
+}()
 
 type c13Q struct {
 	Expr    *model.Expr
@@ -42,12 +54,17 @@ type c13Q struct {
 }
 
 func c13Queries(file int) []c13Q {
-	a1 := model.Eq("a", map[int]string{0: "1", 1: "x", 2: "bc", 3: "3"}[file])
-	bq := model.Eq("b", map[int]string{0: "2", 1: "é", 2: "é", 3: "17"}[file])
+	a1 := model.Eq("a", map[int]string{0: "1", 1: "x", 2: "bc", 3: "3", 4: "1"}[file])
+	bq := model.Eq("b", map[int]string{0: "2", 1: "é", 2: "é", 3: "17", 4: "2"}[file])
+	q1, q2 := c13Q{a1, []string{"b"}}, c13Q{map[bool]*model.Expr{false: model.Not(a1), true: model.Not(model.Eq("a", "nomatch"))}[file == 2], map[bool][]string{false: {"a", "b"}, true: {"a", "ab"}}[file == 2]}
+	if file == 4 {
+		// the same expression grouped by one column with a blank in its name, and by the two columns that spell it
+		q1, q2 = c13Q{a1, []string{"first name"}}, c13Q{a1, []string{"first", "name"}}
+	}
 	return []c13Q{
 		{a1, nil},
-		{a1, []string{"b"}},
-		{map[bool]*model.Expr{false: model.Not(a1), true: model.Not(model.Eq("a", "nomatch"))}[file == 2], map[bool][]string{false: {"a", "b"}, true: {"a", "ab"}}[file == 2]},
+		q1,
+		q2,
 		{model.Eq("a", "nomatch"), []string{"a"}},
 		{model.Or(a1, bq), nil},
 		{model.And(model.Or(a1, bq), model.Not(model.And(a1, bq))), []string{"a"}},
@@ -403,7 +420,7 @@ func c13Worker(ctx *rt.Ctx, job *rt.Job) []*rt.Violation {
 	}
 	// long batches: expensive queries first, cheap ones after (a server that answers out of request order shows here),
 	// all queries in order / reversed / repeated, an invalid member at the end
-	long := [][]int{{6, 2, 0, 4, 0, 4}, {2, 6, 5, 1, 0, 3, 4, 0}, {0, 1, 2, 3, 4, 5, 6}, {6, 5, 4, 3, 2, 1, 0}, {6, 0, 0, 0}, {2, 0, 4, 0, 4, 0, 4, 0, 4, 0, 4, 0}, {6, 2, 0, 4, 7}, {0, 4, 0, 4, 9}}
+	long := [][]int{{6, 2, 0, 4, 0, 4}, {2, 6, 5, 1, 0, 3, 4, 0}, {0, 1, 2, 3, 4, 5, 6}, {6, 5, 4, 3, 2, 1, 0}, {6, 0, 0, 0}, {2, 0, 4, 0, 4, 0, 4, 0, 4, 0, 4, 0}, {6, 2, 0, 4, 7}, {0, 4, 0, 4, 9}, {1, 2, 1, 2, 1, 2}, c13Hundred}
 	for rep := 0; rep < 3; rep++ {
 		for _, b := range long {
 			for _, pat := range c13IDPatterns {
@@ -459,7 +476,7 @@ func c13Run(ctx *rt.Ctx) []*rt.Violation {
 	}
 	outs := rt.RunJobs(ctx, jobs, rt.SpawnOpt{})
 	vs := rt.Collect(ctx, outs, nil)
-	ctx.Cov.Note("rule", fmt.Sprintf("4 index files (one with prefix-related columns a / ab whose name+value concatenations coincide) x server options {cache on/off} x {preload on/off}: every batch of length 0..%d over 11 queries (ungrouped, grouped by 1-2 columns, no match, NOT/OR/AND, an unknown column alone and next to an absent value, an AND without operands nested in an AND; for length <=2 also 3 structurally incomplete members) and 8 long batches of 4..12 queries (expensive first) x id patterns {all 0, explicit, duplicate, mixed, explicit ids equal to later positions} is sent to a real `updog server`; the response must hold one result per query in order with the id rule and the library's count and groups (library Execute on a copy of the file), an invalid member must fail the whole call; ToResult(ToProtobufResult(r)) == r for every library result; the texts through sql.Open grpc:// and file: must give identical columns and rows (also prepared statements, and direct queries with []byte / nil / numeric arguments); non-trivial = batches of >=2 queries and the driver comparisons", maxLen))
+	ctx.Cov.Note("rule", fmt.Sprintf("5 index files (one with prefix-related columns a / ab whose name+value concatenations coincide, one with columns 'first name', 'first', 'name', 'first,name') x server options {cache on/off} x {preload on/off}: every batch of length 0..%d over 11 queries (ungrouped, grouped by 1-2 columns, no match, NOT/OR/AND, an unknown column alone and next to an absent value, an AND without operands nested in an AND; for length <=2 also 3 structurally incomplete members) and 10 long batches of 4..12 and of 100 queries (expensive first) x id patterns {all 0, explicit, duplicate, mixed, explicit ids equal to later positions} is sent to a real `updog server`; the response must hold one result per query in order with the id rule and the library's count and groups (library Execute on a copy of the file), an invalid member must fail the whole call; ToResult(ToProtobufResult(r)) == r for every library result; the texts through sql.Open grpc:// and file: must give identical columns and rows (also prepared statements, and direct queries with []byte / nil / numeric arguments); non-trivial = batches of >=2 queries and the driver comparisons", maxLen))
 	ctx.Assumef("index strings are valid UTF-8 (protobuf strings cannot carry other bytes)")
 	return vs
 }
